@@ -22,6 +22,10 @@ Types are not inferred from Python.  Per function:
   try        the oracle form of try/except: call, outcome term, ok pattern, ghost updates, handlers -> outcome class
   raise / return_none   exceptions as values of the result
   sort, binops, coerce, if_convert_append, ghost_state, allow_defaults   see tools/py2lean.py
+  objects    spec record types whose values stand for mutable objects -> why the members of a list of them are distinct
+             objects (object loops, see tools/py2lean.py); strings: string constants may be compared for equality
+  prelude    (module level) Lean declarations of record types, printed verbatim in the generated file
+  bind       an entry may have a third component "partial": the Lean text is Option-valued, none = the expression raises
 """
 
 L = lambda t: ("List", t)
@@ -115,6 +119,83 @@ def _calc_signed_costs(fn, st, env, after):
         bad(st, "calc_signed_costs called with something other than self.problem.signs")
     return Let("d", Tm("{{ d with signed := signedCosts env d.prec d.costs, marker := some (markerOf d.feasible) }}",
                        fv=["d", "env"]), after(fn.forget(env, ["d"])))
+
+
+
+def _objective_call(fn, n, env, want):
+    """`self.problem.evaluate(individual)`: the user's objective is the parameter f; the call is logged in the ghost
+    field `fcalls` of the record state `s` (the model's log of calls of the true objective)."""
+    from py2lean import Tm, bad
+    if len(n.args) != 1 or n.keywords:
+        bad(n, "self.problem.evaluate with other than one positional argument")
+    pre, v, ty = fn.expr(n.args[0], env)
+    if ty != "Req":
+        bad(n, "self.problem.evaluate called on something that is not the request")
+    pre = pre + [("let", "s", Tm("{{ s with fcalls := s.fcalls ++ [{0}.x] }}", [v], fv=["s"]))]
+    return pre, Tm("(f {0}.x)", [v], fv=["f"]), ("List", "Int")
+
+
+def _evaluate_individual_call(fn, n, env, want):
+    """`self.evaluate_individual(individual)`: the function generated above (same class); it updates the record
+    state and may raise."""
+    from py2lean import Tm, V, bad
+    if len(n.args) != 1 or n.keywords:
+        bad(n, "self.evaluate_individual with other than one positional argument")
+    pre, v, ty = fn.expr(n.args[0], env)
+    if ty != "Req":
+        bad(n, "self.evaluate_individual called on something that is not the request")
+    t = fn.tmp()
+    return (pre + [("bind", ("s", t), Tm("(SurrogateModelPredict_evaluate_individual f ts s {0})", [v], fv=["f", "ts", "s"]))],
+            V(t), ("List", "Int"))
+
+
+def _add_data_stmt(fn, st, env, after):
+    """`self.add_data(x, y)`: the function generated from SurrogateModel.add_data"""
+    from py2lean import Let, Tm, bad
+    c = st.value
+    if len(c.args) != 2 or c.keywords:
+        bad(st, "self.add_data with other than two positional arguments")
+    p1, a, ta = fn.expr(c.args[0], env, ("List", "Int"))
+    p2, b, tb = fn.expr(c.args[1], env, ("List", "Int"))
+    if ta != ("List", "Int") or tb != ("List", "Int"):
+        bad(st, "self.add_data on something other than a vector and a cost list")
+    return fn.wrap(p1 + p2, Let("s", Tm("(SurrogateModel_add_data s {0} {1})", [a, b], fv=["s"]), after(fn.forget(env, ["s"]))), st, env)
+
+
+def _train_stmt(fn, st, env, after):
+    """`self.train()` (abstract; scikit / SMT implementations): modelled by what the wrapper relies on, as in
+    Model/Surrogate.lean - the call happens (counted, with the size of the training set it sees) and sets trained."""
+    from py2lean import Let, Tm, bad
+    c = st.value
+    if c.args or c.keywords:
+        bad(st, "self.train with arguments")
+    return Let("s", Tm("{{ s with trained := true, trainCalls := s.trainCalls + 1, trainSizes := s.trainSizes ++ [s.xs.length] }}",
+                       fv=["s"]), after(fn.forget(env, ["s"])))
+
+
+def _np_round(fn, n, env, want):
+    """`np.round(y, decimals=self.features["precision"])`: the rounding function of the model's environment at the
+    design's precision (`env.rnd prec y`; numpy's rounding itself is in the trusted base, as in Model/Eval.lean)."""
+    from py2lean import Tm, bad
+    import ast
+    if len(n.args) != 1 or len(n.keywords) != 1 or n.keywords[0].arg != "decimals" \
+            or ast.unparse(n.keywords[0].value) != "self.features['precision']":
+        bad(n, "np.round called other than as np.round(y, decimals=self.features['precision'])")
+    pre, v, ty = fn.expr(n.args[0], env, "Rat")
+    if ty != "Rat":
+        bad(n, "np.round of a value of type %s" % ty)
+    return pre, Tm("(env.rnd prec {0})", [v], fv=["env", "prec"]), "Rat"
+
+
+def _child_ctor(fn, n, env, want):
+    """`Individual(vector)` in the worst-case evaluator: a fresh neighbour design (`Child.fresh`)."""
+    from py2lean import Tm, bad
+    if len(n.args) != 1 or n.keywords:
+        bad(n, "Individual(...) with other than one positional argument")
+    pre, v, ty = fn.expr(n.args[0], env)
+    if ty != ("List", "Rat"):
+        bad(n, "Individual(...) of something that is not a vector")
+    return pre, Tm("(Child.fresh {0})", [v]), "Child"
 
 
 def ast_unparse(n):
@@ -507,6 +588,226 @@ structure PBest (κ V : Type) where
                 "sort": "Int",
                 "ret": "Unit", "raises": True,
                 "result": ("{contents}", L("α")),
+            },
+        ],
+    },
+    "Queries": {
+        "source": "artap/problem.py",
+        "serves": ["C17"],
+        "imports": ["ArtapModel.Model.Results"],
+        "open": ["Artap.Results"],
+        "functions": [
+            {   # `self.individuals` is the list inds of the model's recorded individuals; population_id is the tag
+                "py": "Problem.population", "lean": "Problem_population",
+                "py_params": ["self", "population_id"],
+                "params": [("inds", L("Ind")), ("population_id", "Int")],
+                "vars": {"population_id": "Int"},
+                "bind": {"self.individuals": ("inds", L("Ind"))},
+                "types": {"Ind": {".population_id": ("{0}.tag", "Int")}},
+                "ret": L("Ind"),
+            },
+            {   # the call `self.population(max_index)` is the function generated above
+                "py": "Problem.last_population", "lean": "Problem_last_population",
+                "py_params": ["self"],
+                "params": [("inds", L("Ind"))],
+                "bind": {"self.individuals": ("inds", L("Ind"))},
+                "types": {"Ind": {".population_id": ("{0}.tag", "Int")}},
+                "calls": {"self.population": {"fn": "Problem_population inds", "args": ["Int"], "ret": L("Ind")}},
+                "ret": L("Ind"),
+            },
+            {   # the result is an insertion-ordered dict tag -> list of individuals (`pyDict*` of the prelude)
+                "py": "Problem.populations", "lean": "Problem_populations",
+                "py_params": ["self"],
+                "params": [("inds", L("Ind"))],
+                "bind": {"self.individuals": ("inds", L("Ind"))},
+                "types": {"Ind": {".population_id": ("{0}.tag", "Int")}},
+                "ret": ("Dict", ("Int", L("Ind"))), "raises": True,
+            },
+        ],
+    },
+    "Results": {
+        "source": "artap/results.py",
+        "serves": ["C17"],
+        "imports": ["ArtapModel.Model.Results", "ArtapModel.Gen.Queries"],
+        "open": ["Artap.Results"],
+        "functions": [
+            {   # the two callees are the functions generated from artap/problem.py (Gen/Queries.lean)
+                "py": "Results.population", "lean": "Results_population",
+                "py_params": ["self", "population_id"], "allow_defaults": True,
+                "params": [("inds", L("Ind")), ("population_id", "Int")],
+                "vars": {"population_id": "Int"},
+                "calls": {
+                    "self.problem.last_population": {"fn": "Artap.Gen.Queries.Problem_last_population inds", "args": [], "ret": L("Ind")},
+                    "self.problem.population": {"fn": "Artap.Gen.Queries.Problem_population inds", "args": ["Int"], "ret": L("Ind")},
+                },
+                "ret": L("Ind"),
+            },
+            {   # `self.problem.individuals` = inds; `self.problem.costs` = goals, one entry per goal function: the value of
+                # its 'criteria' key when it has one (`Goal` = Option String); `name` = "a non-empty goal name was given"
+                # (only its truth value is used); `self.goal_index(name)` = the oracle gidx (none = its ValueError);
+                # costs travel as integers through the order embedding (regime R1), keys are only compared
+                "py": "Results.find_optimum", "lean": "Results_find_optimum",
+                "py_params": ["self", "name"], "allow_defaults": True,
+                "params": [("inds", L("Ind")), ("goals", L("Goal")), ("name", "Bool"), ("gidx", ("Option", "Nat"))],
+                "vars": {"name": "Bool"},
+                "lean_types": {"Goal": "(Option String)"},
+                "strings": True, "sort": "Int",
+                "bind": {
+                    "self.problem.individuals": ("inds", L("Ind")),
+                    "self.problem.costs": ("goals", L("Goal")),
+                    "self.goal_index(name)": ("gidx", "Nat", "partial"),
+                },
+                "types": {
+                    "Ind": {".costs": ("{0}.costs", L("Int"))},
+                    "Goal": {"in 'criteria'": ("(Option.isSome {0})", "Bool"), "['criteria']": ("?{0}", "Str")},
+                },
+                "ret": "Ind", "raises": True,
+            },
+        ],
+    },
+    "Surrogate": {
+        "source": "artap/surrogate.py",
+        "serves": ["C19"],
+        "imports": ["ArtapModel.Model.Surrogate"],
+        "open": ["Artap.Surrogate"],
+        "functions": [
+            {   # the wrapper object is the record state s : St (eval_counter, predict_counter, trained, x_data, y_data
+                # and the ghost fields of the model)
+                "py": "SurrogateModel.add_data", "lean": "SurrogateModel_add_data",
+                "py_params": ["self", "x", "y"],
+                "params": [("s", "St"), ("x", L("Int")), ("y", L("Int"))],
+                "vars": {"x": L("Int"), "y": L("Int")},
+                "ghost_state": {"s": "St"},
+                "fields": {
+                    "self.eval_counter": ("s", "evalCount", "Nat"),
+                    "self.problem.surrogate.predict_counter": ("s", "predCount", "Nat"),
+                    "self.trained": ("s", "trained", "Bool"),
+                    "self.x_data": ("s", "xs", L(L("Int"))),
+                    "self.y_data": ("s", "ys", L(L("Int"))),
+                },
+                "ret": "Unit", "none_ret": "()",
+                "result": ("{s}", "St"),
+            },
+            {   # `individual` is the request (its vector); `self.problem.evaluate` is the objective f (logged);
+                # `self.train_step` is the integer ts; `self.train()` as in the model (see _train_stmt)
+                "py": "SurrogateModelPredict.evaluate_individual", "lean": "SurrogateModelPredict_evaluate_individual",
+                "py_params": ["self", "individual"],
+                "params": [("f", "List Int → List Int"), ("ts", "Int"), ("s", "St"), ("individual", "Req")],
+                "vars": {"individual": "Req"},
+                "ghost_state": {"s": "St"},
+                "fields": {
+                    "self.eval_counter": ("s", "evalCount", "Nat"),
+                    "self.problem.surrogate.predict_counter": ("s", "predCount", "Nat"),
+                    "self.trained": ("s", "trained", "Bool"),
+                    "self.x_data": ("s", "xs", L(L("Int"))),
+                    "self.y_data": ("s", "ys", L(L("Int"))),
+                },
+                "bind": {"self.train_step": ("ts", "Int")},
+                "types": {"Req": {".vector": ("{0}.x", L("Int"))}},
+                "calls": {
+                    "self.problem.evaluate": {"expr": _objective_call, "mutates": ["s"]},
+                    "self.add_data": {"stmt": _add_data_stmt, "mutates": ["s"]},
+                    "self.train": {"stmt": _train_stmt, "mutates": ["s"]},
+                },
+                "ignore": [("if self.regressor is None:\n    self.init_default_regressor()",
+                            "construction of the default regressor: the regressor is in the trusted base")],
+                "ret": L("Int"), "raises": True,
+                "result": ("({s}, {ret})", ("Prod", ("St", L("Int")))),
+            },
+            {   # `"predict" in dir(self.problem)` is hasHook, `self.problem.predict(individual)` the hook's answer carried by
+                # the request (None = declines), `self.problem.surrogate` is the wrapper itself; the result is the returned
+                # object (None or a cost list)
+                "py": "SurrogateModelPredict.evaluate", "lean": "SurrogateModelPredict_evaluate",
+                "py_params": ["self", "individual"],
+                "params": [("f", "List Int → List Int"), ("hasHook", "Bool"), ("ts", "Int"), ("s", "St"), ("individual", "Req")],
+                "vars": {"individual": "Req"},
+                "ghost_state": {"s": "St"},
+                "fields": {
+                    "self.eval_counter": ("s", "evalCount", "Nat"),
+                    "self.problem.surrogate.predict_counter": ("s", "predCount", "Nat"),
+                    "self.trained": ("s", "trained", "Bool"),
+                    "self.x_data": ("s", "xs", L(L("Int"))),
+                    "self.y_data": ("s", "ys", L(L("Int"))),
+                },
+                "bind": {"'predict' in dir(self.problem)": ("hasHook", "Bool"),
+                         "self.problem.predict(individual)": ("individual.hook", ("Option", L("Int")))},
+                "calls": {"self.evaluate_individual": {"expr": _evaluate_individual_call, "mutates": ["s"]}},
+                "ret": ("Option", L("Int")), "raises": True,
+                "result": ("({s}, {ret})", ("Prod", ("St", ("Option", L("Int"))))),
+            },
+            {
+                "py": "SurrogateModelEval.evaluate", "lean": "SurrogateModelEval_evaluate",
+                "py_params": ["self", "individual"],
+                "params": [("f", "List Int → List Int"), ("s", "St"), ("individual", "Req")],
+                "vars": {"individual": "Req"},
+                "ghost_state": {"s": "St"},
+                "fields": {
+                    "self.eval_counter": ("s", "evalCount", "Nat"),
+                    "self.problem.surrogate.predict_counter": ("s", "predCount", "Nat"),
+                    "self.trained": ("s", "trained", "Bool"),
+                    "self.x_data": ("s", "xs", L(L("Int"))),
+                    "self.y_data": ("s", "ys", L(L("Int"))),
+                },
+                "calls": {"self.problem.evaluate": {"expr": _objective_call, "mutates": ["s"]}},
+                "ret": L("Int"),
+                "result": ("({s}, {ret})", ("Prod", ("St", L("Int")))),
+            },
+        ],
+    },
+    "Signed": {
+        "source": "artap/individual.py",
+        "serves": ["C05"],
+        "imports": ["ArtapModel.Model.Eval"],
+        "open": ["Artap.Eval"],
+        "functions": [
+            {   # `self.costs_signed` is the list cs (the Python bool appended at the end travels as the number 1 / 0: bool
+                # is an int subtype, and the comparators only use it as a number); `self.features["feasible"]` is
+                # the model's three-valued Feas (its truth value); np.round is env.rnd (see _np_round)
+                "py": "Individual.calc_signed_costs", "lean": "Individual_calc_signed_costs",
+                "py_params": ["self", "p_signs"],
+                "params": [("env", "Env"), ("prec", "Nat"), ("costs", L("Rat")), ("feasible", "Feas"), ("p_signs", L("Rat")),
+                           ("cs", L("Rat"))],
+                "vars": {"p_signs": L("Rat")},
+                "state": {"self.costs_signed": ("cs", L("Rat"))},
+                "bind": {"self.costs": ("costs", L("Rat")),
+                         "self.features['feasible']": ("(Feas.truthy feasible)", "Bool")},
+                "calls": {"np.round": {"expr": _np_round}},
+                "coerce": {("Bool", "Rat"): "(if {0} = true then (1 : Rat) else 0)"},
+                "ret": "Unit", "none_ret": "()",
+                "result": ("{cs}", L("Rat")),
+            },
+        ],
+    },
+    "Robust": {
+        "source": "artap/operators.py",
+        "serves": ["C14"],
+        "imports": ["ArtapModel.Model.Robust"],
+        "open": ["Artap.Robust"],
+        "functions": [
+            {   # the submitted design is the record d : Ind with identity i (the bare name `individual` = its identity:
+                # the work lists `self.individuals` / `self.to_evaluate` are lists of identities, as in the model);
+                # `parameters[k]` is the k-th entry of tol (its 'tol' value, none = the key is missing)
+                "py": "WorstCaseEvaluator.add", "lean": "WorstCaseEvaluator_add",
+                "py_params": ["self", "individual"],
+                "params": [("tol", L("Tol")), ("i", "Nat"), ("d", "Ind"), ("individuals", L("ObjId")),
+                           ("to_evaluate", L("ObjId"))],
+                "ghost_state": {"d": "Ind"},
+                "state": {"self.individuals": ("individuals", L("ObjId")), "self.to_evaluate": ("to_evaluate", L("ObjId"))},
+                "fields": {"individual.children": ("d", "children", L("Child")),
+                           "individual.vector": ("d", "x", L("Rat"))},
+                "bind": {"self.algorithm.problem.parameters": ("tol", L("Tol")), "individual": ("i", "ObjId")},
+                "lean_types": {"Tol": "(Option Rat)", "ObjId": "Nat"},
+                "types": {"Tol": {"['tol']": ("?{0}", "Rat")}},
+                "calls": {"Individual": {"expr": _child_ctor}},
+                "ignore": [
+                    ("individual.children[-1].parents.append(individual)",
+                     "back reference from the neighbour to its parent: `parents` is not part of the model"),
+                    ("self.to_evaluate.extend(individual.children)",
+                     "to_evaluate is a concatenation of whole families [parent] ++ parent.children; the model keeps it as "
+                     "the list of the parents' identities, the children are reached through the parent"),
+                ],
+                "ret": "Unit", "raises": True, "none_ret": "()",
+                "result": ("({d}, {individuals}, {to_evaluate})", ("Prod", ("Ind", L("ObjId"), L("ObjId")))),
             },
         ],
     },
